@@ -96,3 +96,7 @@ claim("C37", "property-based testing: event-stream replay vs index tables over g
 claim("C14", "stateful property-based testing (proptest op sequences) with a from-scratch differential oracle and a deterministic livelock hook",
       "Generated mine/update/reorg/reopen histories with small savepoint intervals; after every update the index equals a from-scratch index of the node's chain, or the reorg is reported unrecoverable and flagged; livelock decided by hook H3.",
       "mock node reports headers=0 (savepoints as at the tip); new branch always longer.", category="exploration")
+
+claim("C13", "fault injection over generated histories: worker process aborted at an armed crash point (hook H2), reopened and compared with from-scratch indexes",
+      "13 crash points x occurrences x generated histories (with reorganisations): the reopened index must be a fully committed height of the old or new branch and continuing must reach the uninterrupted content.",
+      "crash = abort(); OS buffers survive; no crash points inside redb.", category="fault_enumeration")
